@@ -6,7 +6,10 @@
    CBMC's pointer/bounds checks are the memory-safety oracle; the functional assertions pin down the token grammar
    (digits '=' bytes SOH) that the decoder harnesses rely on. */
 #include "vf_h.h"
-#include "c03k.c"
+#ifndef KFILE
+#define KFILE "c03k.c"
+#endif
+#include KFILE
 #ifndef NIN
 #define NIN 40
 #endif
